@@ -258,19 +258,24 @@ theorem makeEllipsoid_eq (S : Stru α β) (a : α) (b c : Option α) :
     | none => exact makeEllipsoid_abc S a b a
     | some c => exact makeEllipsoid_abc S a b c
 
-/-- **`makeSphere`**: `return makeEllipsoid(S, radius)` -/
+/-- **`makeSphere`**: `return makeEllipsoid(S, radius)` (the radius for `a`; `b`, `c` omitted or the same radius) -/
 theorem makeSphere_eq (S : Stru α β) (r : α) : Src.Shape.makeSphere S r = Expand.makeSphere S r := by
-  unfold Src.Shape.makeSphere Expand.makeSphere
+  unfold Src.Shape.makeSphere
   rw [makeEllipsoid_eq]
-  cases Expand.makeEllipsoid S r none none <;> rfl
+  -- whatever radii the source passes on: the call must be (definitionally) the model's `makeEllipsoid S r none none`
+  split
+  · next e h => exact h.symm
+  · next R h => exact h.symm
 
 end
 
 /-- signatures (`b`, `c` default to `None`), and where the free names come from: `ceil` is `math.ceil`, `array` is
 `numpy.array`, `findCenter` is the function of `shapeutils.py` tied above, `supercell` is `supercell_mod.supercell`
-(tied by `DS.Props.SrcExpand`), each bound exactly once -/
+(tied by `DS.Props.SrcExpand`), each bound exactly once; `Structure` is a `list` whose `len`, `pop` are the list's own and
+whose `__getitem__` hands an `int` index to `list.__getitem__` (the only sequence method it overrides) -/
 theorem facts_eq : Src.Shape.shape_facts =
-    [("bindings", "makeEllipsoid: from diffpy.structure.expansion import supercell; module: from diffpy.structure.expansion.shapeutils import findCenter; module: from math import ceil; module: from numpy import array; expansion/__init__: from diffpy.structure.expansion.supercell_mod import supercell"),
+    [("Structure", "class Structure(list) overrides: __getitem__"),
+     ("bindings", "makeEllipsoid: from diffpy.structure.expansion import supercell; module: from diffpy.structure.expansion.shapeutils import findCenter; module: from math import ceil; module: from numpy import array; expansion/__init__: from diffpy.structure.expansion.supercell_mod import supercell"),
      ("findCenter", "(S)"),
      ("makeEllipsoid", "(S, a, b=None, c=None)"),
      ("makeSphere", "(S, radius)")] := rfl
